@@ -588,8 +588,21 @@ class Unit:
                 if tk_ == 'str' and body[b_:e_].startswith('"') and body[b_:e_] not in lits:
                     lits.append(body[b_:e_])
             if lits:
-                rl = '        proof { ' + ' '.join('reveal_strlit(%s);' % l for l in lits) + ' }'
+                # reveal_strlit's facts are triggered by `.len()` / index terms: state each literal's length and, for two literals of the same
+                # length, the first position at which they differ (checked assertions, not assumptions), so that distinct literals are known distinct
+                plain = [l for l in lits if '\\' not in l and l.startswith('"')]
+                extra = ['assert(%s@.len() == %d);' % (l, len(l) - 2) for l in plain]
+                for i1 in range(len(plain)):
+                    for i2 in range(i1 + 1, len(plain)):
+                        a_, b_ = plain[i1][1:-1], plain[i2][1:-1]
+                        if len(a_) == len(b_) and a_ != b_:
+                            k_ = [k for k in range(len(a_)) if a_[k] != b_[k]][0]
+                            extra.append('assert(%s@[%d] != %s@[%d]);' % (plain[i1], k_, plain[i2], k_))
+                rl = '        proof { ' + ' '.join('reveal_strlit(%s);' % l for l in lits) + ' ' + ' '.join(extra) + ' }'
                 inserts.append((bo + 1, [(rl, {'kind': 'contract', 'fn': fid, 'tmpl_line': 0})]))
+                # loops are verified in isolation: the same facts at the start of every loop body
+                for _kw, _kpos, lbo_, _lend in rx.find_loops(body):
+                    inserts.append((bo + lbo_ + 1, [(rl, {'kind': 'contract', 'fn': fid, 'tmpl_line': 0})]))
         loops = None
         rets = None
         for (kind, nn), sl in secs.items():
